@@ -1,4 +1,4 @@
-import PtVerif.Proofs.ActivationSample
+import PtVerif.Proofs.ActivationTable
 import PtVerif.Proofs.ActivationData
 import PtVerif.Proofs.ActivationUnique
 /-!
@@ -34,7 +34,8 @@ Clauses of the property and where they are:
 * "epithermal capture omitted when the cadmium ratio is below 1": `epithermal_omitted`,
   `epithermal_factor`
 * "a natural element contributes the abundance-weighted sum of its isotopes":
-  `sample_is_sum_over_isotope_calls`, `natural_is_abundance_weighted_sum`
+  `sample_is_sum_over_isotope_calls`, `sample_table_is_sum_over_isotope_calls`,
+  `natural_is_abundance_weighted_sum`
 * "with the tabulated cross sections and half-lives": data facts `table_rows_well_formed`,
   `ln2_is_log_two`, `barn_literal`, `uCi_literal_is_avogadro_per_microcurie` over
   `Generated.ActivationDat` (kernel-checked against the current files on every run)
@@ -321,6 +322,18 @@ theorem sample_is_sum_over_isotope_calls (c : Consts ℝ) (rowsOf : Nat → Nat 
         (isoJobs mass parts) results ∧
       ∀ k, lookR tally.removal k = (results.map fun res => headSum res k).sum :=
   calcActivation_removal c rowsOf mass env T rests parts tally h
+
+/-- the same for `Sample.activity`, the table for the requested rest times: column `j` of row `k` is
+    the sum of the corresponding entries of those calls -/
+theorem sample_table_is_sum_over_isotope_calls (c : Consts ℝ) (rowsOf : Nat → Nat → List (Nat × Row ℝ))
+    (mass : ℝ) (env : Env ℝ) (T : ℝ) (rests : List ℝ) (parts : List (PtModel.Activation.Part ℝ)) (tally : Tally ℝ)
+    (h : calcActivation c rowsOf mass env T rests parts = .ok tally) :
+    ∃ results, List.Forall₂
+        (fun job res => activity c (rowsOf job.1 job.2.1) job.2.2 env T (0 :: rests) = .ok res)
+        (isoJobs mass parts) results ∧
+      ∀ k j, j < rests.length →
+        (lookT tally.table k).getD j 0 = (results.map fun res => colSum res k j).sum :=
+  calcActivation_table c rowsOf mass env T rests parts tally h
 
 /-- a natural element contributes `Σ_A abundance_A/100 · (activity of isotope A at the element's
     whole mass)` -/
